@@ -237,7 +237,9 @@ def learned_names(repo: Repo, run: Run) -> None:
         pass            # the floor below fails if the obligations were not reached
     n = 0
     for o in probe.obligations:
-        if o["rule"] == "R4" and "pids_names[record's own id]" in o["construct"]:
+        if o["rule"] == "R4" and ("pids_names[record's own id]" in o["construct"] or (
+                o["construct"].startswith("decoder:") and "pids_names" in (o.get("what") or ""))):
+            # (the second kind: a decoder that does something else to the name table - drops an entry, writes a second one)
             n += 1
             run.ob("R0", o["module"], o["scope"], f"learned names (C14/R4): {o['construct']}", o["ok"],
                    (o.get("what", "") + " - the name learned from a thread's own record pair then depends on what other threads "
